@@ -88,16 +88,16 @@ ROLES = {
     "drfm": [("T", r"shared_ptr<(vfps::)?DynamicRFKickMap>"), ("N", r"DynamicRFKickMap$")],
     "rfm": [("T", r"shared_ptr<(vfps::)?SourceMap>"), ("N", r"^(vfps::)?RFKickMap$"), ("AF", "drfm")],
     "slip": [("A", r"DriftMap::DriftMap", "slip"), ("T", r"vector<(vfps::)?meshaxis_t>"), ("U", ("angle",))],
-    "drm": [("N", r"DriftMap$"), ("T", r"DriftMap")],
+    "drm": [("N", r"DriftMap$"), ("T", r"DriftMap"), ("RCV", "apply")],
     "e1": [("A", r"FokkerPlanckMap::FokkerPlanckMap", "e1"), ("U", ("t_damp", "fs", "steps"))],
-    "fpm": [("N", r"FokkerPlanckMap$"), ("T", r"SourceMap \*$")],
+    "fpm": [("N", r"FokkerPlanckMap$"), ("T", r"SourceMap \*"), ("RCV", "apply"), ("RCV", "applyToAll")],
     "wake_impedance": [("T", r"shared_ptr<(vfps::)?Impedance>"), ("I", r"makeImpedance\("), ("U", ("spaced_bins", "gap")), ("I", r"\?"), ("NT",), ("I", r"use_csr|collimator|impedance_file"),
                        ("NI", r"CXXDefaultArgExpr")],
     "rdtn_impedance": [("T", r"shared_ptr<(vfps::)?Impedance>"), ("I", r"makeImpedance\("), ("I", r"CXXDefaultArgExpr"), ("U", ("padded_bins",)), ("NNT",)],
     "rdtn_field": [("T", r"^(vfps::)?ElectricField$")],
     "wake_field": [("T", r"ElectricField \*$"), ("N", r"ElectricField$")],
     "wkm": [("T", r"WakeKickMap \*$"), ("N", r"WakePotentialMap$")],
-    "wm": [("T", r"SourceMap \*$"), ("AF", "wkm"), ("N", r"Identity$")],
+    "wm": [("T", r"SourceMap \*"), ("AF", "wkm"), ("N", r"Identity$"), ("RCV", "apply")],
     "trackme": [("T", r"vector<(vfps::)?PhaseSpace::Position>"), ("A", r"applyToAll", "particles"), ("A", r"appendTracks", "p")],
     "hdf_file": [("T", r"HDF5File \*$"), ("N", r"HDF5File$")],
     "h5save": [("G", {"getSavePhaseSpace"})],
@@ -183,6 +183,14 @@ class MainVars:
                     r = A.declref(x["args"][1])
                     if r is not None and r.get("decl") in self.vars:
                         self.vars[o["decl"]]["assigned_from"].add(r["decl"])
+            if x.get("k") == "CXXMemberCallExpr" and A.call_object(x) is not None:
+                o_ = A.strip(A.call_object(x))
+                while o_ is not None and ((o_.get("k") == "CXXOperatorCallExpr" and o_.get("op") in ("->", "*") and o_.get("args")) or
+                                          (o_.get("k") == "UnaryOperator" and o_.get("op") in ("*", "&") and o_.get("c"))):
+                    o_ = A.strip(o_["args"][0] if o_.get("k") == "CXXOperatorCallExpr" else o_["c"][0])
+                d_ = A.declref(o_) if o_ is not None else None
+                if d_ is not None and d_.get("decl") in self.vars:
+                    self.vars[d_["decl"]].setdefault("receives", set()).add((x.get("callee") or "").split("::")[-1])
             if x.get("k") == "UnaryOperator" and x.get("op") in ("++",):
                 o = A.declref(x["c"][0])
                 if o is not None and o.get("decl") in self.vars:
@@ -232,6 +240,13 @@ class MainVars:
                 self.vars[d["decl"]]["args"].add((nm, p))
 
 
+def _propagate_news(mv):
+    for _ in range(2):
+        for decl, v in mv.vars.items():
+            for src in list(v["assigned_from"]):
+                v["news"] |= mv.vars[src]["news"]
+
+
 def _match(sig, v, mv, resolved):
     """-> True / False / None (depends on a role not resolved yet)"""
     k = sig[0]
@@ -257,6 +272,8 @@ def _match(sig, v, mv, resolved):
         if sig[1] not in resolved:
             return None
         return resolved[sig[1]] in v["assigned_from"]
+    if k == "RCV":
+        return sig[1] in v.get("receives", set())
     if k == "NT":
         return v.get("nulltest", False)
     if k == "NNT":
@@ -275,6 +292,7 @@ def _match(sig, v, mv, resolved):
 def infer(prog):
     """-> (role -> decl id, report list)"""
     mv = MainVars(prog)
+    _propagate_news(mv)
     resolved = {}
     taken = set()
     report = []
